@@ -68,6 +68,22 @@ class Assembler:
         with open(unit_path, 'rb') as f:
             self.u = tomllib.load(f)
         self.unit_path = unit_path
+        # [[include]] unit = "x": all items of unit x come first; its functions are used through the
+        # contract proved there (body not re-verified here)
+        inc_items = []
+        for inc in self.u.get('include', []):
+            with open(os.path.join(ROOT, 'contracts', inc['unit'] + '.toml'), 'rb') as f:
+                other = tomllib.load(f)
+            only = inc.get('only')
+            for it in other.get('item', []):
+                it = dict(it)
+                if only is not None and it.get('path', it.get('in')) not in only and not any(it.get('path', it.get('in'), ).startswith(o + '::') or it.get('in') == o for o in only):
+                    continue
+                if 'path' in it and re.search(r'(^|::)\s*fn \w+$', it['path']) and (it.get('ensures') or it.get('requires')) and not it.get('assumed'):
+                    it = {'file': it['file'], 'path': it['path'], 'contract_from': inc['unit']}
+                inc_items.append(it)
+        if inc_items:
+            self.u['item'] = inc_items + self.u.get('item', [])
         self.repo = repo
         self.canary = canary          # item index to append `ensures false` to
         self.srcs = {}
@@ -75,6 +91,8 @@ class Assembler:
         self.functions = []           # evidence: functions under contract
         self.assumed = []             # (path, sha) of real functions used through an assumed contract
         self.obligations = []         # names, in order
+        self.proved_elsewhere = []    # callee contracts proved in another unit
+        self.in_assumed = False
 
     def src(self, rel):
         if rel not in self.srcs:
@@ -142,7 +160,7 @@ class Assembler:
         k = item.k_first
         while s.is_p(k, '#'):
             k = m[k + 1 if s.is_p(k + 1, '[') else k + 2] + 1
-        if item.kind in ('fn', 'struct', 'enum', 'const', 'static', 'type', 'union') and not in_trait_impl:
+        if item.kind in ('fn', 'struct', 'enum', 'const', 'static', 'type', 'union', 'trait') and not in_trait_impl:
             norm(k, item.k_kw)
         if item.kind == 'struct':
             br = item.body_range()
@@ -275,6 +293,17 @@ class Assembler:
                     k = kc + 1
                     continue
             k += 1
+        # 12: call-path rename (closed per-unit list; error constructors / foreign-crate paths only)
+        for frm, to in self.u.get('rename', []):
+            want = [x for x in extract._tok_strings(frm)]
+            k = fp.k_body_open + 1
+            while k + len(want) <= end:
+                if all(s.s(k + q) == want[q] for q in range(len(want))) and not s.is_p(k - 1, '::') and not s.is_p(k - 1, '.'):
+                    ed.replace(s.t[k][1], s.t[k + len(want) - 1][2], to)
+                    self.fired.add('12:rename %s -> %s' % (frm, to))
+                    k += len(want)
+                    continue
+                k += 1
         # |_| closure params
         for (ka, kb) in fp.closures():
             for q in range(ka + 1, kb):
@@ -306,6 +335,9 @@ class Assembler:
         out = ['%s%s' % (indent, kw)]
         for c in lst:
             name, expr = split_clause(c)
+            if self.in_assumed:
+                out.append('%s    %s, // @assumed %s' % (indent, expr, name))
+                continue
             self.obligations.append({'name': name, 'kind': kw, 'function': fnname, 'text': expr})
             out.append('%s    %s, // @ob %s' % (indent, expr, name))
         return '\n'.join(out) + '\n'
@@ -338,12 +370,24 @@ class Assembler:
     def fn_edits(self, s, item, ed, spec, fnname, is_canary):
         fp = FnParts(item)
         if fp.k_body_open is None:
-            raise ExtractError('fn %s has no body' % fnname)
+            # trait method declaration: contract goes before the terminating ';'
+            res = spec.get('result')
+            if res:
+                a, b = fp.ret_type_range()
+                ed.replace(a, b, ' (%s: %s)' % (res, s.text[a:b].strip()))
+            txt = self.clauses('requires', spec.get('requires'), '    ', fnname) + self.clauses('ensures', spec.get('ensures'), '    ', fnname)
+            if txt:
+                ed.insert(s.t[item.k_last][1], '\n' + txt.rstrip().rstrip(',') + '\n', order=-1)
+                self.fired.add('1:contract-splice')
+            return
         if spec.get('assumed'):
             # body replaced, contract assumed, text hash pinned
             body_a, body_b = s.t[fp.k_body_open][1], s.t[fp.k_body_close][2]
-            self.assumed.append({'function': fnname, 'sha256': hashlib.sha256(item.text().encode()).hexdigest()})
+            self.assumed.append({'function': fnname, 'sha256': hashlib.sha256(item.text().encode()).hexdigest(),
+                                 'proved_in': spec.get('contract_from')})
+            self.in_assumed = True
             self.fn_contract(s, fp, ed, spec, fnname, False)
+            self.in_assumed = False
             ed.replace(body_a + 1, body_b - 1, ' unimplemented!() ')
             ed.insert(item.start, '#[verifier::external_body]\n', order=-2)
             self.fired.add('11:assumed-contract(external_body)')
@@ -381,6 +425,26 @@ class Assembler:
             # existing `-> T` on the closure is kept if no ret given
             ed.insert(s.t[kb][2], txt, order=-1)
             self.fired.add('3:closure-splice')
+            # Verus wants a braced body after a closure contract: wrap an expression body in { }
+            kn = kb + 1
+            if s.is_p(kn, '->'):
+                while not s.is_p(kn, '{'):
+                    kn += 1
+            if not s.is_p(kn, '{'):
+                m = s.match()
+                j = kn
+                while j < fp.k_body_close:
+                    if s.kind(j) == 'p':
+                        c = s.s(j)
+                        if c in '([{':
+                            j = m[j] + 1
+                            continue
+                        if c in ')]},;':
+                            break
+                    j += 1
+                ed.insert(s.t[kn][1], '{ ', order=1)
+                ed.insert(s.t[j - 1][2], ' }')
+                self.fired.add('3b:brace-closure-body')
         for nf in spec.get('nested', []):
             nitem = self.find_nested(s, fp, nf['name'])
             nfp = FnParts(nitem)
@@ -451,29 +515,54 @@ class Assembler:
         cur_impl = None
         for idx, spec in enumerate(u.get('item', [])):
             s = self.src(spec['file'])
-            path = spec['path']
-            item = extract.locate(s, path)
+            if 'spec_text' in spec:
+                path = spec['in'] + '::fn __spec__'
+            else:
+                path = spec['path']
             segs = [x for x in re.split(r'::(?=\s*(?:fn|struct|enum|union|const|static|type|mod|impl|trait|macro)\b)', path)]
             impl_seg = None
             for sg in segs[:-1]:
-                if sg.strip().startswith('impl'):
+                if sg.strip().startswith('impl') or sg.strip().startswith('trait') or sg.strip().startswith('mod'):
                     impl_seg = sg.strip()
-            in_trait_impl = bool(impl_seg and re.search(r'\bfor\b', impl_seg))
+            in_trait_impl = bool(impl_seg and (re.search(r'\bfor\b', impl_seg) or impl_seg.startswith('trait')))
             key = (spec['file'], impl_seg) if impl_seg else None
             if key != cur_impl:
                 if cur_impl is not None:
                     parts.append('}\n')
                 if key is not None:
-                    # emit the real impl header
-                    impl_path = path[:path.index(segs[-1])].rstrip(':')
+                    # emit the real impl / trait header
+                    impl_path = path[:path.rindex(segs[-1])].rstrip(':')
                     impl_item = extract.locate(s, impl_path)
                     br = impl_item.body_range()
                     hed = Edits()
-                    pseudo = Item(s, 'implhdr', '', impl_item.k_first, impl_item.k_kw, br[0] - 1, [])
-                    self.common_edits(s, pseudo, hed, {'keep_vis': True})
+                    pseudo = Item(s, 'trait' if impl_seg.startswith('trait') else 'implhdr', '', impl_item.k_first, impl_item.k_kw, br[0] - 1, [])
+                    self.common_edits(s, pseudo, hed, {'keep_vis': not impl_seg.startswith('trait')})
                     hdr = hed.apply(s.text, impl_item.start, s.t[br[0]][1])
+                    if impl_seg.startswith('mod'):
+                        hdr = 'pub ' + impl_seg
                     parts.append(hdr.strip() + ' {\n')
+                    if impl_seg.startswith('mod'):
+                        parts.append('#[allow(unused_imports)] use super::*;\n')
                 cur_impl = key
+            if 'spec_text' in spec:
+                parts.append('// ---- ghost member added to the real %s (spec only)\n' % impl_seg)
+                parts.append(spec['spec_text'].rstrip() + '\n')
+                self.fired.add('1b:ghost-member-in-real-impl')
+                continue
+            item = extract.locate(s, path)
+            if spec.get('contract_from'):
+                # the contract text is the one proved in another unit (same TOML entry), used here as the callee contract
+                with open(os.path.join(ROOT, 'contracts', spec['contract_from'] + '.toml'), 'rb') as f:
+                    other = tomllib.load(f)
+                src_spec = [o for o in other.get('item', []) if o.get('path') == path and o.get('file') == spec['file']]
+                if not src_spec:
+                    raise ValueError('contract_from: %s has no item %s' % (spec['contract_from'], path))
+                spec = dict(spec)
+                for k in ('result', 'requires', 'ensures'):
+                    if k in src_spec[0]:
+                        spec[k] = src_spec[0][k]
+                spec['assumed'] = True
+                self.proved_elsewhere.append({'function': path, 'unit': spec['contract_from']})
             fnname = (impl_seg + '::' if impl_seg else '') + segs[-1].strip()
             ed = Edits()
             self.common_edits(s, item, ed, spec, in_trait_impl)
@@ -486,6 +575,13 @@ class Assembler:
                                            'has_contract': bool(spec.get('requires') or spec.get('ensures') or spec.get('loop'))})
             for a in spec.get('attrs', []):
                 ed.insert(item.start, a + '\n', order=-3)
+            if item.kind in ('const', 'static'):
+                for k in range(item.k_kw, item.k_last):
+                    if s.is_p(k, '&') and s.is_id(k + 1, 'str'):
+                        ed.insert(s.t[k][2], "'static ")
+                        self.fired.add("6:'static on &str const")
+                    if s.is_p(k, '='):
+                        break
             text = ed.apply(s.text, item.start, item.end)
             text = re.sub(r'\n[ \t]*\n([ \t]*\n)+', '\n\n', text)
             parts.append('// @fn %s  [%s]\n' % (fnname, spec['file']))
@@ -495,7 +591,10 @@ class Assembler:
             parts.append('}\n')
         if u.get('epilogue_text'):
             parts.append(u['epilogue_text'] + '\n')
-        parts.append('} // verus!\nfn main() {}\n')
+        parts.append('} // verus!\n')
+        if u.get('outside_text'):
+            parts.append(u['outside_text'] + '\n')
+        parts.append('fn main() {}\n')
         text = ''.join(parts)
         return text
 
@@ -522,7 +621,7 @@ class Assembler:
             scan[pat] = len(re.findall(re.escape(pat), text))
         return {'ob_lines': ob_lines, 'fn_ranges': fn_ranges, 'assumption_scan': scan,
                 'transformations': sorted(self.fired), 'functions': self.functions,
-                'assumed': self.assumed, 'obligations': self.obligations}
+                'assumed': self.assumed, 'obligations': self.obligations, 'proved_elsewhere': self.proved_elsewhere}
 
 
 def assemble(unit_path, repo, canary=None):
